@@ -1,7 +1,9 @@
-(* C01 — emitted logs parse back to exactly the action tree the program executed.
-   (first layer; composed end-to-end statements are added as C02/C09 developments land) *)
-From Coq Require Import List PArith.
-Require Import Eliot.Base.Level Eliot.Model.Parser Eliot.Proofs.ParserBasics.
+(* C01 — emitted logs parse back to exactly the action tree the program executed. *)
+From Coq Require Import List PArith Permutation.
+Require Import Eliot.Base.Level Eliot.Model.Core Eliot.Model.Prog Eliot.Model.Parser Eliot.Model.Forest
+  Eliot.Model.Roundtrip Eliot.Model.Expected.
+Require Import Eliot.Proofs.ParserBasics Eliot.Proofs.ParserTree Eliot.Proofs.ParserRun Eliot.Proofs.ParserSpec
+  Eliot.Proofs.C01Basics Eliot.Proofs.C01Emission Eliot.Proofs.C01Roundtrip.
 Import ListNotations.
 
 (* a message logged outside any action is its own complete one-message task *)
@@ -11,3 +13,44 @@ Theorem C01_contextless_message_is_a_task :
     = POk ([mkTask [([], NMsg (mkPmsg u [1%positive] None st i))] [[]]], []).
 Proof. exact contextless_message_task. Qed.
 Print Assumptions C01_contextless_message_is_a_task.
+
+(* what a program of the fragment [simple] emits is exactly the level-assignment of the tree it
+   means ([expected p] never mentions levels, contexts or tokens): same uuids, levels, action
+   types, statuses, in the same order *)
+Theorem C01_emission_exact :
+  forall (cfg : config) (d : nat) (e : exn) (p : list stmt),
+    simple p = true -> reg_ok cfg p = true ->
+    number_from 0 (trace_of (fst (run_prog cfg (one_dest d e) p)) d) = lin (expected p).
+Proof. exact C01_emission. Qed.
+Print Assumptions C01_emission_exact.
+
+(* ... and parsing those messages in ANY arrival order yields exactly one complete task per
+   top-level action/message whose tree is the executed tree: nothing lost, duplicated,
+   re-parented or re-ordered *)
+Theorem C01_roundtrip_any_order :
+  forall (cfg : config) (d : nat) (e : exn) (p : list stmt) (order : list nat),
+    simple p = true -> reg_ok cfg p = true ->
+    Permutation order (seq 0 (length (lin (expected p)))) ->
+    exists done us,
+      roundtrip cfg (one_dest d e) p d order = POk (done, []) /\
+      Permutation us (seq 0 (length (expected p))) /\
+      Forall2 (fun u t =>
+                 final_task (expected p) u t /\ task_complete t = true /\
+                 exists T, nth_error (expected p) u = Some T /\
+                   task_root t = Some (node_of (lin_id (expected p) u) u (fun _ => true) (root_level T) T))
+              us done.
+Proof. exact C01_roundtrip. Qed.
+Print Assumptions C01_roundtrip_any_order.
+
+(* the induction over program syntax behind it, from any state, inside or outside an action *)
+Theorem C01_master_lemma :
+  forall (cfg : config) (d : nat) (e : exn) (c : nat), reg_fields cfg = true ->
+  forall (p : list stmt) (s : state),
+    Good d e s -> NoDup (handles p) -> (has_tb p = true -> reg_plain cfg = true) ->
+    (forall h a, cur s c = Some h -> alookup h (heap s) = Some a -> ~ In h (handles p) ->
+       forallb (simple_stmt (Some h)) p = true ->
+       InSpec d e c h a (kids p) (handles p) s (Core.run cfg (fst (compile c p)) s)) /\
+    (cur s c = None -> forallb (simple_stmt None) p = true ->
+       TopSpec d e c (kids p) (handles p) s (Core.run cfg (fst (compile c p)) s)).
+Proof. exact eval_spec. Qed.
+Print Assumptions C01_master_lemma.
